@@ -31,6 +31,7 @@ def codeOfNat : Nat → Option Code
 def parseAct (s : String) : Option VecAct :=
   match s.splitOn ":" with
   | ["all"] => some .all
+  | ["while"] => some .whileNz
   | ["some", k] => k.toNat?.map .some
   | ["err", k, c] =>
     match k.toNat?, c.toNat? with
